@@ -18,10 +18,13 @@ import MetricsVerif.Driver.Statsd
 import MetricsVerif.Driver.Registry
 import MetricsVerif.Driver.Debugging
 import MetricsVerif.Driver.Allowlist
+import MetricsVerif.Driver.LocalRec
+import MetricsVerif.Driver.Atomics
 
 open MetricsVerif.Driver
 
 structure DState where
+  localrec : Option LocalRec.DSt := none
   allow : Option MetricsVerif.Allowlist.Sess := none
   debug : Option Debugging.DSt := none
   registry : Option Registry.St := none
@@ -81,6 +84,11 @@ def step (st : DState) (line : String) : DState × String :=
     match Allowlist.handle st.allow args with
     | some (a, o) => ({ st with allow := a }, o)
     | none => (st, "bad-op")
+  | "localrec" :: args =>
+    match LocalRec.handle st.localrec args with
+    | some (p, o) => ({ st with localrec := p }, o)
+    | none => (st, "bad-op")
+  | "atomics" :: args => (st, (Atomics.handle args).getD "bad-op")
   | _ => (st, "bad-op")
 
 partial def loop (h : IO.FS.Stream) (out : IO.FS.Stream) (st : DState) : IO Unit := do
